@@ -212,3 +212,13 @@ func (s *Storer) SaveOAuth2(_ context.Context, user authboss.OAuth2User) error {
 	s.db().Users[r.PID] = r.Copy()
 	return nil
 }
+
+// PIDs2 returns the sorted pids that have remember-token rows.
+func (d *DB) PIDs2() []string {
+	ks := make([]string, 0, len(d.Tokens))
+	for k := range d.Tokens {
+		ks = append(ks, k)
+	}
+	sort.Strings(ks)
+	return ks
+}
